@@ -279,8 +279,23 @@ def env_from_json(d):
     return env
 
 
+_CONC_CACHE = {}
+
+
 def run_concrete(ob, env, purpose):
-    """Re-run the obligation's harness with floats taken from env."""
+    """Re-run the obligation's harness with floats taken from env (memoised per environment: a path with many failing
+    claims is replayed once)."""
+    key = (ob.oid, purpose, json.dumps(env_to_json(env), sort_keys=True, default=str))
+    if key in _CONC_CACHE:
+        return _CONC_CACHE[key]
+    r = _run_concrete(ob, env, purpose)
+    if len(_CONC_CACHE) > 64:
+        _CONC_CACHE.clear()
+    _CONC_CACHE[key] = r
+    return r
+
+
+def _run_concrete(ob, env, purpose):
     h = Harness('conc', env, purpose)
     exc = None
     import warnings
@@ -311,7 +326,7 @@ def discharge(ob, findings, prop, tier):
         'violations': [], 'known': [], 'unconfirmed': [], 'harness_errors': [], 'inconclusive': [],
         'validated': 0, 'replays': 0, 'samples': [], 'solver_s': 0.0, 'wall_s': 0.0, 'decisions': 0,
         'feas_queries': 0, 'feas_unknown': 0, 'reach': 0, 'bounds': ob.bounds, 'stubs': ob.stubs,
-        'funcs': ob.funcs, 'exc_paths': 0, 'notes': [],
+        'funcs': ob.funcs, 'exc_paths': 0, 'notes': [], 'cases': 0,
     }
     holder = {}
 
@@ -352,6 +367,7 @@ def discharge(ob, findings, prop, tier):
         res['paths'] += 1
         if not h.claims:
             continue
+        res['cases'] += len({c.cid.rsplit('/', 1)[0] for c in h.claims})
         for cl in h.claims:
             res['claims'] += 1
             listed = [f for f in findings if f['property'] == prop and fnmatch.fnmatch(cl.cid, f['claim'])
